@@ -60,7 +60,7 @@ Inner == /\ Live("inner_req") /\ UNCHANGED stats
                       <<"C12.BodyUntouched", E.body = s.stim.req.body>>,
                       <<"C12.HeadersAreInterceptorsResult", SameMultimap(E.list, Expected(s.sent.list, s.acts))>>,
                       <<"C12.ExtensionsAreInterceptorsResult", E.ext_a = ExtAfter(s.stim, s.acts).a /\ E.ext_b = ExtAfter(s.stim, s.acts).b>>,
-                      <<"HarnessOK", s.icpt>> >>,
+                      <<"C12.InterceptorConsultedBeforeService", s.icpt>> >>,
                    [s EXCEPT !.inner = @ + 1])
 Resp == /\ Live("resp") /\ UNCHANGED stats
         /\ IF Rejecting(s.acts)
